@@ -3857,7 +3857,7 @@ func (d *jsonDecDriverBytes) DecodeRawExt(re *RawExt) {
 func (d *jsonDecDriverBytes) decBytesFromArray(bs []byte) []byte {
 	d.advance()
 	if d.tok != ']' {
-		bs = append(bs, uint8(d.DecodeUint64()))
+		bs = append(bs, uint8(chkOvf.UintV(d.DecodeUint64(), 8)))
 		d.advance()
 	}
 	for d.tok != ']' {
@@ -8042,7 +8042,7 @@ func (d *jsonDecDriverIO) DecodeRawExt(re *RawExt) {
 func (d *jsonDecDriverIO) decBytesFromArray(bs []byte) []byte {
 	d.advance()
 	if d.tok != ']' {
-		bs = append(bs, uint8(d.DecodeUint64()))
+		bs = append(bs, uint8(chkOvf.UintV(d.DecodeUint64(), 8)))
 		d.advance()
 	}
 	for d.tok != ']' {
